@@ -115,7 +115,11 @@ def lifecycle_histories(rng, tier):
         calls.append({"call": "prestatname", "abi": "p", "fd": 3, "len": "exact"})
         calls.append({"call": "prestatname", "abi": "u", "fd": 3, "len": "exact-1"})
         calls.append({"call": "prestatname", "abi": "u", "fd": 3, "len": "exact+1"})
-        hs.append({"id": "v%d" % n, "setup": setup, "calls": calls})
+        # asked again (and again): an answer does not depend on the question having been asked before
+        for x in (0, 3, 4, 5, 4, 3):
+            calls += [{"call": "fdstat", "abi": rng.choice("pu"), "fd": x}, {"call": "filestat", "abi": rng.choice("pu"), "fd": x}, {"call": "prestat", "abi": rng.choice("pu"), "fd": x},
+                      {"call": "fdstat", "abi": rng.choice("pu"), "fd": x}]
+        hs.append({"id": "v%d" % n, "setup": setup, "calls": calls, "be": True})
         n += 1
     # a listed directory that disappears: listing it again from the start must not leave a released stream behind
     for gone in ("rmdir", "rename"):
